@@ -869,6 +869,10 @@ def driver_reference_check(rep, run, select, nontrivial, rule, samples_of, what)
 
 def check_C02(rep):
     common_stage(rep)
+    FX.run_fixed(rep, "values.cpp", "g++", "-O1", "value-not-the-bottom-up-evaluation-of-the-derivation", run_prefix="ulimit -s unlimited;")
+    FX.run_fixed(rep, "values.cpp", "clang++", "-O1 -fsanitize=address,undefined -fno-sanitize-recover=all", "value-not-the-bottom-up-evaluation-of-the-derivation", run_prefix="ulimit -s unlimited;")
+    run3 = h3_stage(rep)
+    if run3 is not None: h3_tables_and_runs(rep, run3, tables=False, runs=True)
     run = h1_stage(rep)
     if run is None: return rep
     def nt(cid, j, inp, ri, want, msgs): return want.startswith("VALUE") and want.count("r") >= 3 and len(set(re.findall(r"r(\d+)\(", want))) >= 2
